@@ -105,6 +105,20 @@ def run(tier):
             check.violation({"class": cls, "kind": o["kind"], "slot": name},
                             {"instance": o, "observed_output": r["out"], "slot": name})
     check.sample({"direction": "spec->impl", "instance": inst[len(inst) // 3]})
+    # printing is compositional: for every ordered pair of kinds (all-present / all-absent) the text of two nodes in one list is
+    # the text of the first followed by the text of the second (with PrinterOut.tla's separating space between name bytes)
+    knames = sorted(schema)
+    pt = [{"op": "synth_pairs", "kinds": knames[i:i + 8], "limit_ms": 120000} for i in range(0, len(knames), 8)]
+    npairs = 0
+    for t, r in zip(pt, wp.run(pt)):
+        if r.get("panic") or r.get("hang") or r.get("crash"):
+            check.violation({"class": "crash", "kind": None, "site": r.get("site")}, {"task": t, "observed": r})
+            continue
+        npairs += r.get("pairs", 0)
+        for b in r.get("bad") or []:
+            check.violation({"class": "printer-state-leaks-into-next-node", "kind": b["first"], "slot": b["second"]}, b)
+    check.count(npairs)
+    check.cov["kind_pairs_printed"] = npairs
     # the output stage (PrinterOut.tla): which chunk gets an open tag / a space / a close tag in front of it
     if tier == "quick":
         behs = printerout.behaviours(check, 2) + printerout.behaviours(check, 3, cars=("src", "syn"))
